@@ -384,15 +384,47 @@ func ruleC17R2(w *World, r *Report) {
 		}
 	}
 	// --- inspector.Visit ---
-	if iv := w.fn(w.Ast, "(inspector).Visit"); iv != nil {
+	// the adapter is whatever Inspect hands to Walk as the visitor: a func type with methods, or a struct (pointer) that
+	// holds the callback in a field
+	iv := w.fn(w.Ast, "(inspector).Visit")
+	if insp := w.fn(w.Ast, "Inspect"); iv == nil && insp != nil {
+		for _, b := range insp.Blocks {
+			for _, in := range b.Instrs {
+				c, ok := in.(*ssa.Call)
+				if !ok || c.Call.StaticCallee() == nil || c.Call.StaticCallee().Name() != "Walk" || len(c.Call.Args) != 2 {
+					continue
+				}
+				if mi, ok := c.Call.Args[1].(*ssa.MakeInterface); ok {
+					if m := w.Prog.LookupMethod(mi.X.Type(), w.Ast.Types, "Visit"); m != nil {
+						iv = m
+					}
+				}
+			}
+		}
+	}
+	if iv != nil && len(iv.Params) >= 1 {
 		ok := false
+		fromRecv := func(v ssa.Value) bool {
+			if v == ssa.Value(iv.Params[0]) {
+				return true
+			}
+			if f, isF := v.(*ssa.Field); isF && f.X == ssa.Value(iv.Params[0]) {
+				return true
+			}
+			if ld, isL := isLoad(v); isL {
+				if fa, isFA := ld.(*ssa.FieldAddr); isFA && fa.X == ssa.Value(iv.Params[0]) {
+					return true
+				}
+			}
+			return false
+		}
 		for _, b := range iv.Blocks {
 			iff, isIf := b.Instrs[len(b.Instrs)-1].(*ssa.If)
 			if !isIf {
 				continue
 			}
 			call, isCall := iff.Cond.(*ssa.Call)
-			if !isCall || call.Call.Value != ssa.Value(iv.Params[0]) {
+			if !isCall || !fromRecv(call.Call.Value) {
 				continue
 			}
 			tr, fr := retOf(b.Succs[0]), retOf(b.Succs[1])
